@@ -130,7 +130,11 @@ def dba_loop(s, c=None, max_it=10, thr=0.001, mask=None,
         logger.debug('DBA Iteration {}'.format(it))
         if use_c:
             assert(c is not None)
-            c_copy = c.copy()  # The C code reuses this array
+            # The C code reuses this array
+            if isinstance(c, array.array):
+                c_copy = array.array(c.typecode, c)  # array.array has no copy method
+            else:
+                c_copy = c.copy()
             # c_copy = c.flatten()
             if ndim == 1:
                 dtw_cc.dba(s, c_copy, mask=mask_copy, nb_prob_samples=nb_prob_samples, **kwargs)
